@@ -26,6 +26,9 @@ def workload(ck, quick):
     """list of (name, source, modules)"""
     progs = list(gcshapes.programs())
     ck.coverage["matrix_programs"] = len(progs)
+    deep = gcshapes.deep_programs()
+    ck.coverage["deep_chain_programs"] = len(deep)
+    progs += deep
     scripts, mods = common.scripts_corpus()
     for name, src in scripts:
         progs.append(("script:" + name, src, mods))
@@ -132,6 +135,11 @@ def run(tier):
     for i in range(250 if quick else 8000 * common.TS):
         steps, hmods = feat_repl.host_history(rh.fork(str(i)))
         hist.append({"name": "host/%d" % i, "steps": steps, "mods": hmods})
+    # ... and what later runs can still reach after a run was abandoned by an uncaught error: closures over variables of
+    # every frame and fiber the failure discarded (ordinary snippet histories, collect-always, audited + poisoned)
+    for i in range(350 if quick else 10000 * common.TS):
+        steps, hmods = feat_repl.history(rh.fork("h%d" % i))
+        hist.append({"name": "hist/%d" % i, "steps": steps, "mods": hmods})
     checked, _ = modelcheck.check_programs(ck, hist, opts={"gc": "always", "quarantine": 1, "audit": 1}, sig_prefix="HostHistory")
     ck.coverage["host_api_histories"] = checked
 
